@@ -139,3 +139,26 @@ Definition gate_req (default : bytes) (registered : list bytes) (q : greq) : lis
   else gate_untyped (gq_hasbody q) (gq_parse q) (gq_reparse q) consumes keys.
 Definition gate_history (default : bytes) (registered : list bytes) (qs : list greq) : list (list nat * option bytes) :=
   map (gate_req default registered) qs.
+
+(* ---- what the operation addressed declares to read: a body parameter, no parameter at all, only path / query /
+   header parameters, or formData parameters. The gate (validation.contentType, Context.BindValidRequest) never
+   consults it: every request that carries a body goes through the gate, whatever the operation declares.
+   reflective = what validateRequest makes of a request on the reflective entry point (BindAndValidate, the untyped
+   handler) once the gate has answered g: (status served, consumer whose Consume ran).
+     an error collected by the gate is served and the parameter stage never runs;
+     otherwise the parameter stage runs: a body parameter is decoded by the consumer the gate stored; path / query /
+     header parameters read nothing from the body; a formData parameter has the form parsed (media type must be a
+     form type, the form well-formed: form_st = the status of that refusal, None when the form stage is content -
+     an oracle, the harness asks net/http itself; the stage is the subject of C03 / C04) ---- *)
+Inductive opkind := KBody | KNone | KOther | KForm.
+
+Definition reflective (k : opkind) (form_st : option nat) (g : list nat * option bytes) : option nat * option bytes :=
+  match fst g with
+  | c :: _ => (Some c, None)
+  | [] => match k with
+          | KBody => (None, snd g)
+          | KNone => (None, None)
+          | KOther => (None, None)
+          | KForm => (form_st, None)
+          end
+  end.
